@@ -264,6 +264,7 @@ theorem inv_step {c : PipeCfg} {u : Bool} (hd : c.completeDeletes = true)
   | propose s w tag => exact inv_propose hi s w tag hv
   | deliver s b => exact inv_applyMany hd hm s _ hi hv
   | rm s id => exact inv_remove hi s id
+  | restart s => exact absurd hv (by simp [ValidOp])
 
 theorem inv_run {c : PipeCfg} {u : Bool} (hd : c.completeDeletes = true)
     (hm : c.matchProposer = true ∨ u = true) (ops : List Op) :
@@ -314,6 +315,10 @@ theorem alog_step (c : PipeCfg) (σ : Sys) (op : Op) (t : Nat) :
     by_cases h : t = s
     · subst h; simp [step, remove, deliveredTo]
     · simp [step, remove, deliveredTo, Sys.set_st_other _ _ h]
+  | restart s =>
+    by_cases h : t = s
+    · subst h; simp [step, restart, deliveredTo]
+    · simp [step, restart, deliveredTo, Sys.set_st_other _ _ h]
 
 theorem deliveredTo_cons (t : Nat) (op : Op) (ops : List Op) :
     deliveredTo t (op :: ops) = deliveredTo t [op] ++ deliveredTo t ops := by
